@@ -25,7 +25,8 @@ Abstractions (trusted base, exercised by the correspondence):
   modelled: the model keeps the *text each emitter hands to the docstring emitter* (`tableHeaderText`, the payload of
   `Stmt.docstring`), and the harness feeds that text to the real docstring emitter to compare; a class body keeps
   only the *kind* of each statement.
-* `repr` of a Literal member is `'` + member + `'` (members are plain: no quote, backslash, control character).
+* `repr` of a Literal member is `reprStr` (CPython's quote choice and escaping of `\\`, the quote, `\\n`, `\\r`, `\\t`); members
+  are printable text otherwise (other control characters / unprintable code points would need `\\x..` escapes).
 * not modelled (never produced on the property's domain): `x_typ.sql.type_args` / `type_kwargs` / `default`,
   constraints other than `server_default`, the `[schema=…]` comment of a `dict` parameter carrying an `ir`,
   a description that is `None`, `Union` of other than two members, `generate_repr_method` /
@@ -96,8 +97,21 @@ inductive Typ
   | union (l r : Typ)
 deriving DecidableEq, Repr
 
-/-- `repr` of a plain `str` -/
-def reprStr (s : Str) : Str := '\'' :: (s ++ ['\''])
+/-- `repr` of a `str` (CPython `unicode_repr`) on printable text: the quote is `"` exactly when the string contains `'`
+    and no `"`, otherwise `'`; a backslash and the chosen quote are escaped with a backslash; `\n`, `\r`, `\t` are
+    written as escapes; every other character is copied (the harness generates printable characters only, for which
+    `repr` copies, ASCII or not) -/
+def reprQuote (s : Str) : Char := if s.contains '\'' && !s.contains '"' then '"' else '\''
+
+def reprChar (q : Char) (c : Char) : Str :=
+  if c == '\\' then ['\\', '\\']
+  else if c == q then ['\\', q]
+  else if c == '\n' then ['\\', 'n']
+  else if c == '\r' then ['\\', 'r']
+  else if c == '\t' then ['\\', 't']
+  else [c]
+
+def reprStr (s : Str) : Str := reprQuote s :: ((s.flatMap (reprChar (reprQuote s))) ++ [reprQuote s])
 
 def Typ.render : Typ → Str
   | .name s => s
